@@ -18,61 +18,7 @@ use std::collections::HashMap;
 use std::sync::atomic::{AtomicU64, Ordering::Relaxed};
 use std::sync::{Arc, Mutex};
 
-/// 2 frames x 3 layers, tilemap layer, indexed palette, user data, tags, slices
-pub fn subject() -> File {
-    let fmt = Fmt::Indexed(0);
-    let mut f = gen::file(4, 3, &fmt, &[50, 70]);
-    let ir = (1u8, 7u8);
-    let fr = &mut f.frames[0];
-    fr.push(new_palette(0, pal_entries(8, 4)));
-    fr.push(Body::Tileset(tileset(2, 3, 2, 1, tile_pixels(&fmt, 3, 2, 1, 3, ir), "ts")));
-    fr.push(Body::Layer(Layer::image("base")));
-    fr.push(Body::UserData(UserData::both("layer-ud", [1, 2, 3, 4])));
-    let mut top = Layer::image("top");
-    top.blend = 1;
-    top.opacity = 180;
-    fr.push(Body::Layer(top));
-    fr.push(Body::Layer(Layer::tilemap("map", 2)));
-    fr.push(tags(vec![Tag::new("a", 0, 1, 0), Tag::new("b", 1, 1, 2)]));
-    fr.push(Body::UserData(UserData::text("tag-a")));
-    fr.push(slice("s", 3, vec![key(0, 0, 0, 2, 2)]));
-    fr.push(raw_cel(0, 0, 0, 255, 4, 3, pixels(&fmt, 4, 3, 1, ir)));
-    fr.push(zcel(1, 1, 1, 200, 2, 2, pixels(&fmt, 2, 2, 2, ir), 6));
-    fr.push(Body::UserData(UserData::color([9, 9, 9, 9])));
-    fr.push(tm_cel(2, 0, 0, 255, 2, 2, vec![1, 2, 0, 1]));
-    f.frames[1].push(link_cel(0, 0, 0, 255, 0));
-    f.frames[1].push(tm_cel(2, 2, 1, 128, 1, 2, vec![2, 1]));
-    f
-}
-
-type Call = (&'static str, fn(&AsepriteFile) -> u64);
-
-fn h_img(i: image::RgbaImage) -> u64 {
-    hash64(&(i.dimensions(), i.into_raw()))
-}
-
-pub const CALLS: [Call; 14] = [
-    ("frame(0).image", |f| h_img(f.frame(0).image())),
-    ("frame(1).image", |f| h_img(f.frame(1).image())),
-    ("cel(0,1).image", |f| h_img(f.cel(0, 1).image())),
-    ("layer(0).frame(1).image", |f| h_img(f.layer(0).frame(1).image())),
-    ("tilemap(2,0).image", |f| h_img(f.tilemap(2, 0).unwrap().image())),
-    ("tilemap(2,1).tile(*)", |f| {
-        let t = f.tilemap(2, 1).unwrap();
-        hash64(&(0..4).flat_map(|y| (0..4).map(move |x| (x, y))).map(|(x, y)| t.tile(x, y).id()).collect::<Vec<_>>())
-    }),
-    ("tileset.image", |f| h_img(f.tilesets().get(2).unwrap().image())),
-    ("tileset.tile_image(1)", |f| h_img(f.tilesets().get(2).unwrap().tile_image(1))),
-    ("palette", |f| {
-        let p = f.palette().unwrap();
-        hash64(&(p.num_colors(), (0..9).map(|i| p.color(i).map(|c| c.raw_rgba8())).collect::<Vec<_>>()))
-    }),
-    ("layer_by_name", |f| hash64(&(f.layer_by_name("top").map(|l| l.id()), f.layer_by_name("nope").map(|l| l.id())))),
-    ("tag_by_name", |f| hash64(&f.tag_by_name("b").map(|t| (t.from_frame(), t.to_frame(), t.user_data().cloned().map(|u| u.text))))),
-    ("slices+userdata", |f| hash64(&(f.slices().len(), f.slices()[0].name.clone(), f.layer(0).user_data().map(|u| u.text.clone()), f.cel(0, 1).user_data().map(|u| u.color.map(|c| c.0))))),
-    ("layers walk", |f| hash64(&f.layers().map(|l| (l.id(), l.is_visible(), l.parent().map(|p| p.id()), l.name().to_string())).collect::<Vec<_>>())),
-    ("debug fmt", |f| hash64(&format!("{:?}", f.layer(1)).len())),
-];
+pub use super::c16_subject::{h_img, panics, subject, Call, CALLS};
 
 /// Second subject: 2 frames x 300 layers (pattern 2 has cels at (0,256), (0,0), (1,1), (1,257) ...).
 /// Calls address cels whose coordinates differ only beyond bit 7, or only in which coordinate
@@ -303,6 +249,103 @@ fn histories(ctx: &Ctx, thorough: bool) {
     }
 }
 
+
+/// state carried from one load to the next inside a process: B loaded (and fully walked)
+/// after A (and after A, A') must give exactly the observation B gives in a fresh process
+fn cross_load(ctx: &Ctx, thorough: bool) {
+    let fam = "cross-load";
+    if !ctx.wants_family(fam) {
+        return;
+    }
+    let mut files: Vec<(String, Vec<u8>)> = gen::bases().into_iter().map(|(n, f)| (n.to_string(), f.encode())).collect();
+    files.push(("d1".into(), gen::d1(&Fmt::Rgba).encode()));
+    files.push(("d1i".into(), gen::d1(&Fmt::Indexed(4)).encode()));
+    files.push(("subject".into(), subject().encode()));
+    files.push(("wide".into(), gen::wide(2, 300, 2).encode()));
+    // two files that differ in one pixel / one palette entry only (a cache keyed too coarsely confuses them)
+    {
+        let mut f = subject();
+        for c in f.frames[0].chunks.iter_mut() {
+            if let Body::Palette(p) = &mut c.body {
+                p.entries[3].rgba = [250, 1, 2, 255];
+            }
+        }
+        files.push(("subject with another palette entry 3".into(), f.encode()));
+        let mut f = gen::d1(&Fmt::Rgba);
+        'o: for fr in f.frames.iter_mut() {
+            for c in fr.chunks.iter_mut() {
+                if let Body::Cel(Cel { body: CelBody::Raw { data, .. } | CelBody::Compressed { data, .. }, .. }) = &mut c.body {
+                    if !data.is_empty() {
+                        data[0] ^= 0x55;
+                        break 'o;
+                    }
+                }
+            }
+        }
+        files.push(("d1 with one pixel changed".into(), f.encode()));
+    }
+    let n = files.len();
+    let depth = if thorough { 4 } else { 3 };
+    let mut seqs: Vec<Vec<usize>> = Vec::new();
+    let mut frontier: Vec<Vec<usize>> = vec![vec![]];
+    for _ in 0..depth {
+        let mut next = Vec::new();
+        for h in &frontier {
+            for c in 0..n {
+                let mut h2 = h.clone();
+                h2.push(c);
+                next.push(h2);
+            }
+        }
+        seqs.extend(next.iter().cloned());
+        frontier = next;
+    }
+    let only_idx: Option<usize> = ctx.only.as_ref().and_then(|(_, c)| c.strip_prefix("idx=").and_then(|r| r.split(' ').next()).and_then(|s| s.parse().ok()));
+    ctx.family(fam, seqs.len() as u64, &format!("every sequence of length <= {} of {} files (bases, D1, the C16 subjects, and two files that differ from another one in a single palette entry / pixel) loaded and fully walked one after the other in one worker process; status and observation digest of every load must equal those of the same file loaded alone in a fresh process", depth, n), true);
+    let pool = Pool::new("checked", 16, 120.0);
+    let res: Mutex<HashMap<usize, Vec<(u32, u64, String)>>> = Mutex::new(HashMap::new());
+    pool.run(
+        seqs.len(),
+        &|k| {
+            let fs: Vec<(&[u8], bool)> = seqs[k].iter().map(|i| (files[*i].1.as_slice(), true)).collect();
+            (worker::KIND_LOAD_SEQ, 0, worker::seq_task(&fs))
+        },
+        &|k, _b, r: TaskResult| {
+            let items = worker::seq_items(&r);
+            let v = if matches!(r.status, worker::Status::Ok) && items.len() == seqs[k].len() { items.into_iter().map(|x| (x.status, x.digest, x.msg)).collect() } else { vec![(99, 0, format!("{:?} {}", r.status, r.msg))] };
+            res.lock().unwrap().insert(k, v);
+        },
+    );
+    let res = res.into_inner().unwrap();
+    for (k, sq) in seqs.iter().enumerate() {
+        if only_idx.map_or(false, |i| i != k) {
+            continue;
+        }
+        let case = || format!("idx={} {}", k, sq.iter().map(|i| files[*i].0.clone()).collect::<Vec<_>>().join(" ; then "));
+        ctx.eval(sq.len() as u64);
+        let got = &res[&k];
+        ctx.outcome(hash64(&got.iter().map(|x| (x.0, x.1)).collect::<Vec<_>>()));
+        if got.len() != sq.len() {
+            ctx.violation(Violation { family: fam.into(), case: case(), sig: "cross-load:incomplete".into(), detail: format!("the sequence did not complete: {:?}", got), bytes: None, extra: json!({}) });
+            continue;
+        }
+        for (pos, fi) in sq.iter().enumerate() {
+            let alone = &res[fi][0];
+            if (got[pos].0, got[pos].1) != (alone.0, alone.1) {
+                ctx.violation(Violation {
+                    family: fam.into(),
+                    case: case(),
+                    sig: "load-depends-on-earlier-loads".into(),
+                    detail: format!("load #{} ({}): status {} digest {:016x} [{}] after the earlier loads, but status {} digest {:016x} [{}] when loaded alone in a fresh process", pos + 1, files[*fi].0, got[pos].0, got[pos].1, got[pos].2, alone.0, alone.1, alone.2),
+                    bytes: Some(files[*fi].1.clone()),
+                    extra: json!({}),
+                });
+                break;
+            }
+        }
+    }
+}
+
 fn schedules(ctx: &Ctx, thorough: bool) {
     if !ctx.wants_family("schedules") {
         return;
@@ -326,9 +369,10 @@ fn schedules(ctx: &Ctx, thorough: bool) {
         }
     }
     // 3 threads x 1 call each over all 14
-    for a in 0..14 {
-        for b in 0..14 {
-            for c in 0..14 {
+    let np: Vec<usize> = (0..CALLS.len()).filter(|i| !panics(*i)).collect();
+    for &a in &np {
+        for &b in &np {
+            for &c in &np {
                 configs.push(vec![vec![a], vec![b], vec![c]]);
             }
         }
@@ -391,9 +435,79 @@ fn schedules(ctx: &Ctx, thorough: bool) {
             ctx.violation(Violation { family: "schedules".into(), case: case(), sig: "schedule-dependent".into(), detail: msg, bytes: Some(bytes.clone()), extra: json!({}) });
         }
     });
-    ctx.family("schedules", schedules.load(Relaxed), &format!("shuttle check_dfs (exhaustive, no sampling) over {} thread configurations sharing one &AsepriteFile with a yield before every call: 2 threads x 2 calls over a 6-call subset (1296), 3 threads x 1 call over all 14 calls (2744), 3 threads x 2 calls for fixed mixes{}; every call compared with the fresh-sprite baseline", configs.len(), if thorough { " and 216 rotating mixes" } else { "" }), true);
+    ctx.family("schedules", schedules.load(Relaxed), &format!("shuttle check_dfs (exhaustive, no sampling) over {} thread configurations sharing one &AsepriteFile with a yield before every call: 2 threads x 2 calls over a 6-call subset (1296), 3 threads x 1 call over all {} calls that return normally, 3 threads x 2 calls for fixed mixes{}; every call compared with the fresh-sprite baseline", configs.len(), np.len(), if thorough { " and 216 rotating mixes" } else { "" }), true);
     ctx.set_extra("schedules_explored", json!(schedules.load(Relaxed)));
     ctx.sample(json!({"family": "schedules", "configuration": [["frame(0).image", "cel(0,1).image"], ["tilemap(2,0).image", "palette"]], "meaning": "two threads, two calls each, every interleaving at call granularity"}));
+}
+
+
+/// (c') the same calls against the copy of the library whose synchronisation primitives are
+/// shuttle's (tools/gen_sx.py + mc-sx): every lock / atomic / once / channel operation inside
+/// the library is a scheduling point, and shuttle's DFS enumerates all schedules.
+fn schedules_sync(ctx: &Ctx, thorough: bool) {
+    let fam = "schedules-sync";
+    if !ctx.wants_family(fam) {
+        return;
+    }
+    let sx = crate::root().join("target/sx");
+    let status = std::fs::read_to_string(sx.join("status")).unwrap_or_else(|_| "unavailable: not built (run through ./check)".into());
+    let gen: serde_json::Value = std::fs::read_to_string(sx.join("gen.json")).ok().and_then(|t| serde_json::from_str(&t).ok()).unwrap_or(json!({}));
+    ctx.set_extra("sync_instrumented_build", json!({"status": status.trim(), "rewrite": gen}));
+    let bin = crate::root().join("target/checked/mc-sx");
+    if status.trim() != "ok" || !bin.is_file() {
+        ctx.assume(format!("schedules-sync NOT explored in this run: the shuttle-instrumented copy of the library could not be built ({}); preemption inside one call is then covered only under the source-scan assumption below", status.trim()));
+        return;
+    }
+    let mut cmd = std::process::Command::new(&bin);
+    cmd.arg(if thorough { "thorough" } else { "quick" });
+    if let Some((f, c)) = &ctx.only {
+        if f == fam {
+            cmd.arg("--case").arg(c);
+        }
+    }
+    let out = match cmd.stderr(std::process::Stdio::null()).output() {
+        Ok(o) => o,
+        Err(e) => {
+            eprintln!("machinery error: cannot run {}: {}", bin.display(), e);
+            std::process::exit(2);
+        }
+    };
+    let text = String::from_utf8_lossy(&out.stdout);
+    let (mut schedules, mut configs, mut capped, mut skipped, mut done) = (0u64, 0u64, 0u64, 0u64, false);
+    let bytes = subject().encode();
+    for l in text.lines() {
+        let Ok(j) = serde_json::from_str::<serde_json::Value>(l) else { continue };
+        if j.get("done").is_some() {
+            done = true;
+            continue;
+        }
+        if j.get("skipped").is_some() {
+            skipped += 1;
+            continue;
+        }
+        configs += 1;
+        let n = j["schedules"].as_u64().unwrap_or(0);
+        schedules += n;
+        if j["capped"].as_bool().unwrap_or(false) {
+            capped += 1;
+        }
+        ctx.eval_n(n, n * j["calls"].as_u64().unwrap_or(1));
+        ctx.outcome(hash64(&(j["threads"].as_u64(), n)));
+        if let Some(b) = j["bad"].as_str() {
+            ctx.violation(Violation { family: fam.into(), case: j["case"].as_str().unwrap_or("").to_string(), sig: "schedule-dependent(sync)".into(), detail: b.to_string(), bytes: Some(bytes.clone()), extra: json!({"schedules_until_failure": n}) });
+        }
+    }
+    if !done {
+        eprintln!("machinery error: mc-sx did not finish (exit {:?})", out.status.code());
+        std::process::exit(2);
+    }
+    ctx.family(fam, schedules, &format!("shuttle check_dfs over {} thread configurations against the shuttle-instrumented copy of the library ({} textual rewrites of std::sync / std::thread uses; load, baselines and threads all inside the execution): 2 threads x 1 call over all calls that return normally, 3 threads x 1 call over 7 calls, 2 threads x 2 calls over the {} rendering calls; {} configurations hit the per-configuration cap, {} skipped after 12 failing configurations", configs, gen["rewrites"].as_u64().unwrap_or(0), if thorough { 8 } else { 4 }, capped, skipped), capped == 0 && skipped == 0);
+    ctx.set_extra("sync_schedules_explored", json!({"schedules": schedules, "configurations": configs, "capped": capped, "skipped": skipped}));
+    if let Some(l) = gen["leftover"].as_array() {
+        if !l.is_empty() {
+            ctx.assume(format!("the textual rewrite left {} uses of std synchronisation under another spelling (not scheduling points): {:?}", l.len(), l));
+        }
+    }
 }
 
 fn free_running(ctx: &Ctx) {
@@ -410,7 +524,7 @@ fn free_running(ctx: &Ctx) {
             let (file, base, bad) = (&file, &base, &bad);
             s.spawn(move || {
                 for k in 0..iters {
-                    let i = ((k * 7 + t * 3) % 14) as usize;
+                    let i = ((k * 7 + t * 3) % CALLS.len() as u64) as usize;
                     if (CALLS[i].1)(file) != base[i] {
                         bad.fetch_add(1, Relaxed);
                     }
@@ -512,7 +626,7 @@ fn source_scan(ctx: &Ctx) {
         }
     }
     hits.sort();
-    ctx.assume(format!("ASSUMPTION for the 'preemption inside one call' part (not explored: nothing in the crate is a scheduling point): no interior mutability, statics, thread-locals or unsafe in /repo/src — source scan: {}", if hits.is_empty() { "held (no occurrence)".to_string() } else { format!("NOT held: {}", hits.join("; ")) }));
+    ctx.assume(format!("ASSUMPTION for the 'preemption inside one call' part (family schedules-sync makes the library's own synchronisation operations scheduling points; plain memory accesses are not): no interior mutability, statics, thread-locals or unsafe in /repo/src — source scan: {}", if hits.is_empty() { "held (no occurrence)".to_string() } else { format!("NOT held: {}", hits.join("; ")) }));
     ctx.set_extra("source_scan_hits", json!(hits));
 }
 
@@ -521,7 +635,9 @@ pub fn run(ctx: &Ctx) -> i32 {
     sendsync(ctx);
     histories(ctx, thorough);
     wide_histories(ctx, thorough);
+    cross_load(ctx, thorough);
     schedules(ctx, thorough);
+    schedules_sync(ctx, thorough);
     free_running(ctx);
     configurations(ctx, thorough);
     source_scan(ctx);
